@@ -100,6 +100,8 @@ func runCase(c map[string]any) (map[string]any, error) {
 		return ev, runKick(c, ev)
 	case "rt":
 		return ev, runRt(c, ev)
+	case "upd":
+		return ev, runUpd(c, ev)
 	}
 	return nil, fmt.Errorf("unknown op %q", op)
 }
